@@ -10,10 +10,12 @@ import (
 	"reflect"
 
 	"k8s.io/apimachinery/pkg/runtime"
+	"k8s.io/apimachinery/pkg/runtime/schema"
 	"k8s.io/utils/ptr"
 
 	xpv1 "github.com/crossplane/crossplane-runtime/apis/common/v1"
 	"github.com/crossplane/crossplane-runtime/pkg/resource/unstructured/composed"
+	"github.com/crossplane/crossplane-runtime/pkg/resource/unstructured/composite"
 
 	v1 "github.com/crossplane/crossplane/apis/apiextensions/v1"
 	zz "github.com/crossplane/crossplane/internal/zzverif"
@@ -110,4 +112,52 @@ func HarnessC10MergeOptions() {
 	} else {
 		zz.Assert("existing-map-value-overridden", got["k2"] == any("des2"))
 	}
+}
+
+// HarnessC10TransformSource: a patch whose source value is an array or a map
+// (held by reference inside the unstructured source object) and that passes it
+// through a transform leaves the source object exactly as it was, in both
+// patch directions.
+//
+//gosym:harness panics
+//gosym:cover join to-composite from-composite
+func HarnessC10TransformSource() {
+	xr := composite.New(composite.WithGroupVersionKind(schema.GroupVersionKind{Group: "example.org", Version: "v1", Kind: "XR"}))
+	xr.SetName("xr")
+	xr.Object["spec"] = map[string]any{"ports": []any{int64(80), "b", true}, "tags": map[string]any{"k": int64(1)}}
+	cd := composed.New()
+	cd.SetAPIVersion("example.org/v1")
+	cd.SetKind("Composed")
+	cd.SetName("cd")
+	cd.Object["status"] = map[string]any{"ports": []any{int64(443), "c"}, "tags": map[string]any{"k": int64(2)}}
+
+	toComposite := zz.Bool("patch.toComposite")
+	p := v1.Patch{Type: v1.PatchTypeFromCompositeFieldPath}
+	from, to := "spec.ports", "spec.forProvider.joined"
+	if toComposite {
+		zz.Cover("to-composite")
+		p.Type = v1.PatchTypeToCompositeFieldPath
+		from, to = "status.ports", "status.joined"
+	} else {
+		zz.Cover("from-composite")
+	}
+	if zz.Bool("source.isMap") {
+		from = from[:len(from)-len("ports")] + "tags"
+	}
+	p.FromFieldPath, p.ToFieldPath = ptr.To(from), ptr.To(to)
+	switch zz.Choose("transform", 3) {
+	case 1:
+		zz.Cover("join")
+		p.Transforms = []v1.Transform{{Type: v1.TransformTypeString, String: &v1.StringTransform{Type: v1.StringTransformTypeJoin, Join: &v1.StringTransformJoin{Separator: ","}}}}
+	case 2:
+		p.Transforms = []v1.Transform{{Type: v1.TransformTypeString, String: &v1.StringTransform{Type: v1.StringTransformTypeFormat, Format: ptr.To("%v")}}}
+	}
+	var src runtime.Object = xr
+	if toComposite {
+		src = cd
+	}
+	before := src.DeepCopyObject()
+	err := Apply(p, xr, cd)
+	zz.Assert("patch-never-modifies-its-source", reflect.DeepEqual(before, src))
+	zz.Observe("err", err != nil)
 }
